@@ -1,9 +1,49 @@
-(* C01 — placeholder: the CPython-side specification machine is not yet modelled in Coq.  The
-   property is decided on every run against CPython itself (harness/py/pyref.py) and the decoder /
-   encoder models; see DESIGN.md. *)
+(* C01 — Encoder output means the documented Python value under CPython's unpickler. *)
 From Coq Require Import List ZArith NArith Bool.
-From OgRek Require Import Base Value Reader Decoder DecoderFacts Encoder EncoderFacts.
-Theorem C01_partial_totality :
-  (forall cfg st inp, fst (fst (decode cfg st inp)) <> Panic /\ fst (fst (decode cfg st inp)) <> OutOfFuel)
-  /\ (forall c v fa, snd (run_w (encode c v) fa) <> EPanic).
-Proof. split; [exact decode_safe|exact encode_no_panic]. Qed.
+From Coq.Strings Require Import Byte.
+From OgRek Require Import Base Value Encoder Norm Insn EncProg PyVM PyVal EncoderFacts ProgFacts PyFacts.
+Import ListNotations.
+
+(* STATUS.  Two specifications appear in the statement, both compared with CPython 3.11 itself on
+   every run (harness/py/props_py.py):
+     PyVM.pyload   - CPython's unpickler on instruction lists without memo opcodes (the encoder emits
+                     none), classes and persistent ids symbolic;
+     PyVal.pyval_of - the Python value the documented type table assigns to a Go value.
+   C01_encode_loads_partial: for every Go value in the domain of pyval_of, every protocol 0..5 and
+   both StrictUnicode settings, Encode succeeds, its bytes are the assembly of one instruction
+   program (one pickle, see C12), and the CPython machine loads that program without error to
+   exactly pyval_of c v - numbers, text, byte payloads, key/value association (Python dict
+   assignment in iteration order under Python equality) and nesting.
+   The domain of pyval_of (hence `_partial`) leaves out what the proof does not cover yet: the
+   protocol-0 text forms of strings, floats (and Bytes / []byte, built from them at protocol 0),
+   payloads of 2^31 (Python-2 str) / 2^32 bytes or more; and what og-rek does not deliver: text that
+   is not valid UTF-8 written with a unicode opcode, a non-ASCII persistent id at protocol 0 (the
+   two recorded findings).  Outside the domain the property is decided on every run by loading the
+   implementation's bytes with CPython and comparing with the documented value. *)
+Theorem C01_encode_loads_partial : forall c v x,
+  (0 <= e_proto c <= 5)%Z -> pyval_of c v = Some x ->
+  exists ws, run_w (encode c v) None = (ws, EOk) /\
+             concat ws = asm_all (program c v) /\
+             pyload (program c v) = Some x.
+Proof. exact encode_loads. Qed.
+Print Assumptions C01_encode_loads_partial.
+
+Theorem C01_partial_totality : forall c v fa, snd (run_w (encode c v) fa) <> EPanic.
+Proof. exact encode_no_panic. Qed.
+Print Assumptions C01_partial_totality.
+
+(* the domain is not empty: a nested value with a map whose keys collide under Python equality *)
+Definition ex_c (p : Z) : econfig := Build_econfig p false (fun _ => false) (fun _ => nil).
+Example C01_nonvacuous :
+  forall p, In p [1; 2; 3; 4; 5]%Z ->
+    pyval_of (ex_c p)
+      (RList [RInt (-129); RUint 18446744073709551615; RStr SBytes [xff; x00];
+              RMap [(RInt 1, RStr SPlain [x61]); (RFloat 4607182418800017408, RBool true)];
+              RCall [x6d] [x6e] [RTuple [RNone; RByteSeq [x01]]]]) =
+    Some (PList [PInt (-129); PInt 18446744073709551615; PBytes [xff; x00];
+                 PDict [(PInt 1, PBool true)];
+                 PCall (PGlobal [x6d] [x6e]) [PTuple [PNone; PBArr [x01]]]]).
+Proof.
+  intros p H. cbn in H.
+  repeat (destruct H as [H|H]; [subst p; vm_compute; reflexivity|]). contradiction.
+Qed.
